@@ -165,8 +165,8 @@ def round_trip_class(d):
     """why a round trip may legitimately return more than was deposited (see known_findings)"""
     if imp_lost(d, "long") > 0 or imp_lost(d, "short") > 0:
         return "positive_impact"
-    if d["pre"]["supply"] == 0:
-        return "orphan_value"
+    if d["pre"]["supply"] == 0 and d["pre"]["liq"]["long"] + d["pre"]["liq"]["short"] > 0:
+        return "orphan_value"             # value without owners: supply 0 but liquidity left in the pool
     return "other"
 
 
